@@ -147,7 +147,7 @@ def undiscounted(sx, shape, cap=None, warm=False):
 
 
 def jobs(tier):
-    o = dict(timeout_ms=15000, budget_s=(300 if tier == 'quick' else 1200), max_paths=20000)
+    o = dict(timeout_ms=15000, budget_s=(120 if tier == 'quick' else 1200), max_paths=20000)
     for i, sh in enumerate(UND):
         for cap in [None, 2, 3]:
             yield ('undiscounted', dict(shape=i, cap=cap), dict(o, cost=5))
